@@ -142,9 +142,14 @@ func (s *registrationServiceImpl) getInternalStateDescription(appCtx appctx.Appl
 		Extensions: []statejson.ExtensionDescription{},
 	}
 
-	if s.runtime != nil {
+	// a reset may clear the runtime at any time: read the pointer once, under the lock
+	s.mutex.Lock()
+	runtime := s.runtime
+	s.mutex.Unlock()
+
+	if runtime != nil {
 		// we use pointer here so that 'runtime' json field is nil if runtime is not set (as opposed to filled with default values)
-		rtdesc := s.runtime.GetRuntimeDescription()
+		rtdesc := runtime.GetRuntimeDescription()
 		isd.Runtime = &rtdesc
 	}
 
